@@ -7,7 +7,7 @@ regenerates the `Generated/Kernel*.lean` files named in the imports from `onl/si
 theorems below (bridge theorems) prove that the generated definitions coincide with the functions of the hand-written kernel
 model `K` (`Kernel/Agenda.lean`, `Ops.lean`, `Step.lean`) that the property theorems are about.  A flipped comparison, a changed
 constant, priority or refusal, a lost or reordered effect in the source changes a generated definition and one of these proofs
-no longer compiles - for every input, not for sampled ones.  Here: the `succeed` / `fail` calls of `doCall` (`KState.trigger`), `finishProc`, `closeEvent` (C02).  The names `URGENT` / `NORMAL` and an omitted priority / delay of a `schedule` call stand for the model's constants in `Generated/KernelEvent02.lean`; that the source gives them these values is C01's bridge (`Props/KernelGen01.lean`).
+no longer compiles - for every input, not for sampled ones.  Here: the `succeed` / `fail` calls of `doCall` (`KState.trigger`), `finishProc`, `closeEvent` (C02).  In `Generated/KernelEvent02.lean` the *priority* argument of a `schedule` call is not translated (the effect carries the model's `NORMAL`) and an omitted delay stands for the model's 0: which class an occurrence is put in, and the defaults of `Environment.schedule`, are C01's clauses (`Gen.Site.*`, `Props/KernelGen01.lean`).
 
 The encoding between the generated object views and the model state is explicit and hand-written
 (`OnlVerif/Lemmas/GenKernelDefs.lean`: `resObj`, `runEff`, `buildEvent`, `applyTrig`, `toEntry`; the `run…` functions next to the
